@@ -80,6 +80,8 @@ class C05(Property):
         ("antismash/common/secmet/features/protocluster.py", "SideloadedProtocluster.definition_cdses"),
         ("antismash/common/secmet/features/cdscollection.py", "CDSCollection.add_cds"),
         ("antismash/common/secmet/record.py", "Record.add_protocluster"),
+        ("antismash/common/secmet/qualifiers/gene_functions.py", "GeneFunctionAnnotations.add"),
+        ("antismash/common/secmet/qualifiers/gene_functions.py", "GeneFunctionAnnotations.get_by_function"),
         ("antismash/common/secmet/features/feature.py", "Feature.start"),
         ("antismash/common/secmet/features/feature.py", "Feature.end"),
         ("antismash/common/secmet/features/feature.py", "Feature.overlaps_with"),
@@ -103,7 +105,7 @@ class C05(Property):
             "coordinates, gene-sharing chains, origin-spanning cores / neighbourhoods / whole-record extents; directed "
             "families for every repaired defect (chains needing several merge passes, single-single-candidate chains, "
             "long candidates sorting far from what they reach, equal-coordinate groups of one kind, origin-spanning "
-            "hybrids); a `record` family on real records: CDS features with CORE gene functions of one or two products, rule-"
+            "hybrids); a `record` family on real records: CDS features with CORE gene functions of one or two products (names in substring relation: NRPS / NRPS-like, terpene / terpene-precursor, T1PKS / PKS), rule-"
             "detected protoclusters over them, sideloaded protoclusters (also with the product of a detected one) around their "
             "core genes; exhaustive small scope in the thorough/deep tier (record length 12, cores on a 2-grid, "
             "neighbourhoods {0,2,6}, genes subsets of {x,y}: every multiset of <= 3 protoclusters, sampled 4); every case "
@@ -340,7 +342,11 @@ class C05(Property):
         length = rng.choice([100, 200, 1000])
         u = length // 100
         circular = rng.random() < 0.3
-        products = ["nrps", "t1pks", "terpene", "ripp"]
+        # product names in a substring relation: a CORE gene of one must not define a protocluster of the other
+        products = rng.choice([["NRPS", "NRPS-like", "terpene", "terpene-precursor"],
+                               ["T1PKS", "PKS", "NRPS", "NRPS-like"],
+                               ["terpene", "terpene-precursor", "PKS", "T1PKS"],
+                               ["NRPS", "NRPS-like", "NRPS", "NRPS-like"]])
         genes: List[Dict[str, Any]] = []
         ps: List[Dict[str, Any]] = []
         used_keys = set()
@@ -371,7 +377,7 @@ class C05(Property):
             add_proto(a, a + w, rng.choice([0, 2, 6]), product, False)
             # its CORE genes, sometimes also carrying another product (a shared defining gene)
             other = rng.choice(products)
-            add_gene(a, a + 2, [product] + ([other] if rng.random() < 0.5 else []))
+            add_gene(a, a + 2, [product] + ([other] if rng.random() < 0.35 else []))
             if rng.random() < 0.6:
                 add_gene(a + w - 2, a + w, [product])
             if rng.random() < 0.6:      # a second rule over (part of) the same genes
